@@ -164,6 +164,11 @@ func genTower(repoRoot string, t towerCfg, tmpl string) string {
 		}
 	})
 	keep := map[string]bool{"DTWIST": t.Twist == "D", "MTWIST": t.Twist == "M"}
+	if e2src, err := os.ReadFile(filepath.Join(dir, "e2.go")); err == nil {
+		// the two published square-root algorithms of the quadratic extension
+		keep["SQRT34"] = strings.Contains(string(e2src), "sqrtExp1")
+		keep["SQRT14"] = !keep["SQRT34"] && strings.Contains(string(e2src), "func (z *E2) Sqrt(")
+	}
 	var out []string
 	skip := false
 	for _, line := range strings.Split(s, "\n") {
